@@ -424,6 +424,9 @@ func cmdCheck(args []string) int {
 	if *tier == "thorough" {
 		scN = 240
 	}
+	if v, err := strconv.Atoi(os.Getenv("GOVC_SELFCHECK_N")); err == nil {
+		scN = v
+	}
 	sc := selfCheck(prog, all, scN, int64(seed), scratch)
 	for _, f := range sc.Failures {
 		engineErrors = append(engineErrors, "self-check: "+f)
